@@ -65,6 +65,19 @@ Section Eject.
     : list (T * T) * bool :=
     let '(l', w) := fbh_rev (rev MN) MBH Mtot f in (rev l', w).
 
+
+  (* ---- the per-row block of EvolvedMFWithBH._evolve (lines 1210-1247) -- *)
+  (* inputs: BH arrays AFTER optional natal kicks, total cluster mass and BH mass
+     as numpy summed them, the row's target, strict mode *)
+  Inductive fbh_out :=
+  | FbhOk (l : list (T * T)) (warned : bool)
+  | FbhErr.                      (* ValueError: target above the fraction formed *)
+  Definition fbh_post (formed strict : bool) (MN : list (T * T)) (Mtot Mbhtot f : T) : fbh_out :=
+    if negb formed then FbhOk MN false else
+    let warn := (Mbhtot / Mtot) <? f in
+    if warn && strict then FbhErr
+    else FbhOk (fst (dyn_eject_fbh_nowrap MN Mbhtot Mtot f)) warn.
+
   (* ---- budget decision of EvolvedMF._evolve (lines 843-873) -------- *)
   (* inputs: the BH arrays, their sum as numpy computed it, ret_dyn, Nmin,
      natal-kick result (already-kicked arrays and kicked mass) if kicks on *)
